@@ -336,10 +336,14 @@ def t_ownership(rng, n):
             empty = rng.random() < 0.3
             rec = fresh()
             if kind == "alloc":
-                t = own.allocate_taco_structure(tuple(modes), tuple(dims), tuple(ordering))
-                keep.append(t)
+                try:
+                    t = own.allocate_taco_structure(tuple(modes), tuple(dims), tuple(ordering))
+                    keep.append(t)
+                    exp = observe(own, rec, t)
+                except Exception as e:  # noqa: BLE001
+                    exp = [f"raise {type(e).__name__}"]
                 add((f"allocate_taco_structure {c_args(modes, dims, ordering)}", "(k0 0 false)", "m_init"), None,
-                    observe(own, rec, t), f"allocate{modes, dims, ordering}")
+                    exp, f"allocate{modes, dims, ordering}")
             elif kind == "alloc_bad":
                 which = rng.randrange(5)
                 if which == 0:
@@ -395,18 +399,21 @@ def t_ownership(rng, n):
                         add((f"seqM (Tensor_setstate (PTensor 77) {state} None) (fun _ => ret (PTensor 77))",
                              "(k0 0 false)", "m_init"), None, observe(own, rec, t2.cffi_tensor), f"pickle {modes, dims, ordering}")
             elif kind in ("take", "take_twice"):
-                t = own.allocate_taco_structure(tuple(modes), tuple(dims), tuple(ordering))
-                keep.append(t)
-                sim_kernel(ffi, t, keep, empty)
-                own.take_ownership_of_arrays(t)
-                twice = ""
-                if kind == "take_twice":
-                    own.take_ownership_of_arrays(t)
-                    twice = "seqM (take_ownership_of_arrays t) (fun _ => "
+                twice = "seqM (take_ownership_of_arrays t) (fun _ => " if kind == "take_twice" else ""
                 prog = (f"seqM (allocate_taco_structure {c_args(modes, dims, ordering)}) (fun t => "
                         f"seqM (call_kernel (PList [t])) (fun _ => {twice}seqM (take_ownership_of_arrays t) (fun _ => ret t)"
                         + (")" if twice else "") + "))")
-                add((prog, f"(k0 0 {'true' if empty else 'false'})", "m_init"), None, observe(own, rec, t),
+                try:
+                    t = own.allocate_taco_structure(tuple(modes), tuple(dims), tuple(ordering))
+                    keep.append(t)
+                    sim_kernel(ffi, t, keep, empty)
+                    own.take_ownership_of_arrays(t)
+                    if kind == "take_twice":
+                        own.take_ownership_of_arrays(t)
+                    exp = observe(own, rec, t)
+                except Exception as e:  # noqa: BLE001
+                    exp = [f"raise {type(e).__name__}"]
+                add((prog, f"(k0 0 {'true' if empty else 'false'})", "m_init"), None, exp,
                     f"{kind}{modes, dims, ordering} empty={empty}")
             elif kind == "take_nokey":
                 t = ffi.new("taco_tensor_t*")
@@ -421,17 +428,21 @@ def t_ownership(rng, n):
             else:
                 ptr, state = hand_struct(own, keep, modes, empty)
                 arrays = [2 if m == 1 else 0 for m in modes]
-                if kind == "members":
-                    own.take_ownership_of_tensor_members(ptr)
-                    prog = "take_ownership_of_tensor_members (PPtr (SPtr 0))"
-                elif kind == "tensor":
-                    own.take_ownership_of_tensor(ptr)
-                    prog = "take_ownership_of_tensor (PPtr (SPtr 0))"
-                else:
-                    own.take_ownership_of_tensor(ptr)
-                    own.take_ownership_of_arrays(ptr)
-                    prog = ("seqM (take_ownership_of_tensor (PPtr (SPtr 0))) (fun _ => take_ownership_of_arrays (PPtr (SPtr 0)))")
-                add((prog, "(k0 0 false)", state), 0, observe(own, rec, ptr, arrays), f"{kind} modes={modes} empty={empty}")
+                try:
+                    if kind == "members":
+                        prog = "take_ownership_of_tensor_members (PPtr (SPtr 0))"
+                        own.take_ownership_of_tensor_members(ptr)
+                    elif kind == "tensor":
+                        prog = "take_ownership_of_tensor (PPtr (SPtr 0))"
+                        own.take_ownership_of_tensor(ptr)
+                    else:
+                        prog = ("seqM (take_ownership_of_tensor (PPtr (SPtr 0))) (fun _ => take_ownership_of_arrays (PPtr (SPtr 0)))")
+                        own.take_ownership_of_tensor(ptr)
+                        own.take_ownership_of_arrays(ptr)
+                    exp = observe(own, rec, ptr, arrays)
+                except Exception as e:  # noqa: BLE001
+                    exp = [f"raise {type(e).__name__}"]
+                add((prog, "(k0 0 false)", state), 0, exp, f"{kind} modes={modes} empty={empty}")
 
         # ---- TensorMethod.__call__ with real kernels
         from tensora.compile import TensorMethod
